@@ -297,3 +297,101 @@ def check_C16(tier, seed):
              "sqlite3_total_changes unchanged, digest of all tables unchanged, second observation identical, and on "
              "disk the directory listing and file contents unchanged",
         assumptions=["sqlite3_stmt_readonly classifies statements correctly", "verify() is exercised by C11/C17 runs"])
+
+
+def _std_graphs(wd, mc_stats, fam, cache, crate_bounds=(3, 4), mem_bounds=(3, 5, 13)):
+    """The two standard bounded graphs: crate operations from a fresh library, and membership
+    operations after the id-diverging preamble."""
+    key = (fam, crate_bounds, mem_bounds)
+    if key not in cache:
+        st, sc = vlib.mc_forest(wd, fam, crate_bounds[0], crate_bounds[1])
+        st2, sc2 = vlib.mc_forest(wd, fam, mem_bounds[0], mem_bounds[2], max_tracks=mem_bounds[1], with_tracks=True,
+                                  crate_ops="basic", opnames=("a",), pre="diverge")
+        mc_stats.extend([st, st2])
+        cache[key] = (st, sc, st2, sc2)
+    return cache[key]
+
+
+def check_C10(tier, seed):
+    """Everything observed before closing is observed after reopening."""
+    def build(wd, mc_stats):
+        ws = []
+        cache = {}
+        schemas = vlib.REPR + pick_extra([s for s in vlib.ALL if s not in vlib.REPR], seed, 2) if tier == "quick" else vlib.ALL
+        for s in schemas:
+            st, sc, st2, sc2 = _std_graphs(wd, mc_stats, vlib.family(s), cache,
+                                           crate_bounds=(3, 4) if tier == "quick" else (4, 4),
+                                           mem_bounds=(3, 5, 13) if tier == "quick" else (3, 6, 14))
+            r = random.Random(seed * 977 + vlib.ALL.index(s))
+            n1, n2 = (120, 120) if tier == "quick" else (len(sc), len(sc2))
+            ws.append(Workload(s, sc if len(sc) <= n1 else r.sample(sc, n1), libcheck.NAMES4, mode="disk",
+                               flags={"reopen": True}, origin=st["instance"]))
+            ws.append(Workload(s, sc2 if len(sc2) <= n2 else r.sample(sc2, n2), ["a", "d"], mode="disk",
+                               flags={"reopen": True}, origin=st2["instance"]))
+        return ws
+
+    return history_check(
+        "C10", tier, seed, build,
+        rule="histories from the bounded Library graphs are executed on libraries created on disk (tmpfs); after EVERY call "
+             "all handles are released, database_exists() and load_database(dir, loaded) are called and the complete "
+             "observation is taken again: TLC (action Reopen: UNCHANGED state) requires it to equal the abstract state, "
+             "`loaded` to be the schema the library was created with (out-parameter pre-set to a sentinel) and "
+             "database_exists() to be true; create_or_load / missing / empty directories are covered by C13's check",
+        assumptions=["track field persistence is covered by the C01/C06 checks' reopen mode"])
+
+
+def check_C11(tier, seed):
+    """The stored database stays a well-formed Engine library."""
+    def build(wd, mc_stats):
+        ws = []
+        cache = {}
+        schemas = vlib.REPR + pick_extra([s for s in vlib.ALL if s not in vlib.REPR], seed, 2) if tier == "quick" else vlib.ALL
+        for s in schemas:
+            st, sc, st2, sc2 = _std_graphs(wd, mc_stats, vlib.family(s), cache,
+                                           crate_bounds=(3, 4) if tier == "quick" else (4, 5),
+                                           mem_bounds=(3, 5, 13) if tier == "quick" else (3, 6, 14))
+            r = random.Random(seed * 31 + vlib.ALL.index(s))
+            n1, n2 = (250, 250) if tier == "quick" else (len(sc), len(sc2))
+            ws.append(Workload(s, sc if len(sc) <= n1 else r.sample(sc, n1), libcheck.NAMES4, flags={"raw": True}, origin=st["instance"]))
+            ws.append(Workload(s, sc2 if len(sc2) <= n2 else r.sample(sc2, n2), ["a", "d"], flags={"raw": True}, origin=st2["instance"]))
+        return ws
+
+    return history_check(
+        "C11", tier, seed, build,
+        rule="after every call of the replayed histories an independent reader (plain SQLite C API) dumps the raw rows; "
+             "TLC evaluates RawStore!RawV1OK / RawV2OK on them against the abstract state: PRAGMA integrity_check and "
+             "foreign_key_check clean, verify() passes; 1.x: Crate.path = names root->crate each followed by ';', one "
+             "CrateParentList row per live crate, CrateHierarchy = ancestor relation, CrateTrackList = membership without "
+             "duplicates or dangling rows, no MetaData/MetaDataInteger/PerformanceData rows of removed tracks, trackCount "
+             "= number of membership rows; 2.x: per parent one sibling chain in listed order ending in 0, per playlist one "
+             "entity chain in listed order, entities reference live rows of this database, Track.filename/fileType/"
+             "origin columns agree with path / uuid / id",
+        assumptions=["stored performance blobs are decoded against the format spec by the C02/C04 checks",
+                     "NULL is logged as a typed sentinel (-999999 / '<NULL>')"])
+
+
+def check_C14(tier, seed):
+    """A failed mutating call leaves no partial update."""
+    def build(wd, mc_stats):
+        ws = []
+        cache = {}
+        schemas = vlib.REPR if tier == "quick" else vlib.ALL
+        for s in schemas:
+            st, sc, st2, sc2 = _std_graphs(wd, mc_stats, vlib.family(s), cache,
+                                           crate_bounds=(3, 4) if tier == "quick" else (4, 4),
+                                           mem_bounds=(3, 5, 13) if tier == "quick" else (3, 6, 14))
+            r = random.Random(seed * 131 + vlib.ALL.index(s))
+            n1, n2 = (150, 150) if tier == "quick" else (len(sc), len(sc2))
+            ws.append(Workload(s, sc if len(sc) <= n1 else r.sample(sc, n1), libcheck.NAMES4, flags={"sweep": True}, origin=st["instance"]))
+            ws.append(Workload(s, sc2 if len(sc2) <= n2 else r.sample(sc2, n2), ["a", "d"], flags={"sweep": True}, origin=st2["instance"]))
+        return ws
+
+    return history_check(
+        "C14", tier, seed, build,
+        rule="fault sweep: every call of every replayed history is first attempted with its 1st, 2nd, ... k-th SQL "
+             "statement failing (link-level shim returns SQLITE_IOERR from the first sqlite3_step of the k-th prepared "
+             "statement without executing it; reads, writes, BEGIN and COMMIT alike) until the fault no longer fires; TLC "
+             "(action Failed = Reject) requires every faulted attempt to throw a std::exception, the complete observation to "
+             "be unchanged and the digest of all tables to be identical; the following calls must conform (library usable)",
+        assumptions=["a failing statement has no effect of its own (SQLite statement atomicity), which is what the shim simulates",
+                     "track field setters are swept by the C06-level track driver (see known findings)"])
